@@ -103,8 +103,48 @@ def bank():
             yield {"gemini://a.example/": (30, tgt)}, "gemini://a.example/", mx, f"redirect to {tgt!r}"
 
 
+def cli_cases():
+    """the command line: `nauyaca get --no-redirects URL` makes one request and shows the 3x response; `--max-redirects N` is the bound"""
+    from typer.testing import CliRunner
+    from nauyaca.__main__ import app
+    from nauyaca.client.session import GeminiClient
+    from nauyaca.protocol.response import GeminiResponse
+    graph = {"gemini://h0.example/": (31, "gemini://h1.example/"), "gemini://h1.example/": (30, "gemini://h2.example/"), "gemini://h2.example/": (20, "text/gemini")}
+    for argv, want_conn, want_text in ((["get", "--no-trust", "--no-redirects", "gemini://h0.example/"], 1, "gemini://h1.example/"),
+                                       (["get", "--no-trust", "--max-redirects", "0", "gemini://h0.example/"], 1, None),
+                                       (["get", "--no-trust", "--max-redirects", "1", "gemini://h0.example/"], 2, None),
+                                       (["get", "--no-trust", "gemini://h0.example/"], 3, None)):
+        log = []
+
+        async def fake(self, url, _log=log):
+            _log.append(url)
+            st, meta = graph.get(url, (51, "Not found"))
+            return GeminiResponse(status=st, meta=meta, body="final body\n" if st == 20 else None, url=url)
+        real = GeminiClient._get_single
+        GeminiClient._get_single = fake
+        try:
+            res = CliRunner().invoke(app, argv)
+        finally:
+            GeminiClient._get_single = real
+        bad = []
+        if len(log) != want_conn:
+            bad.append(f"{len(log)} connection(s), expected {want_conn}: {log}")
+        if want_text is not None and (res.exit_code != 0 or want_text not in res.output):
+            bad.append(f"with redirect following disabled the 3x response is not returned unchanged: exit code {res.exit_code}, output {res.output[-160:]!r}")
+        if bad:
+            return dict(confirmed=True, input=dict(command="nauyaca " + " ".join(argv)), observed=dict(violated=bad), clause="C16 through the command line: --no-redirects makes exactly one request and returns its response; --max-redirects is the bound")
+    return None
+
+
 def main():
     p = load()
+    if p.get("obligation") == "__bounded__":
+        try:
+            r = cli_cases()
+        except ImportError:
+            r = None
+        if r:
+            done(**r)
     for graph, start, mx, what in bank():
         out, log = run_graph(graph, start, mx)
         bad = judge(graph, start, mx, out, log)
